@@ -258,11 +258,11 @@ Definition ack_encode (h : hdr) (dstlen : nat) : outcome (hdr * bytes) :=
 (* ---------- PINGREQ PINGRESP DISCONNECT ---------- *)
 
 Definition empty_new (ty : N) : hdr := new_hdr ty.
-Definition empty_len (h : hdr) : nat := hdr_msglen h.
+Definition empty_len (h : hdr) : nat := if negb (dirty h) then length (dbuf h) else hdr_msglen h.
 Definition empty_decode (h : hdr) (src : bytes) : outcome (hdr * nat) :=
   do hr <- hdr_decode h src;
   let '(h, n) := hr in
-  if negb (remlen h =? 0) then Err 0 n else Ok (h, n).
+  if negb (remlen h =? 0) then Err 0 n else Ok (h_clean h, n).
 Definition empty_encode (h : hdr) (dstlen : nat) : outcome bytes :=
   if negb (dirty h) then
     if (dstlen <? length (dbuf h))%nat then Err 0 0 else Ok (dbuf h)
